@@ -53,10 +53,15 @@ InR(x, lo, hi) == lo <= x /\ x <= hi
 (* encoding is <<FALSE, 1>> (Go: (RuneError, 1)); the empty input is       *)
 (* <<FALSE, 0>>.  Table: unicode/utf8 "first" and "acceptRanges".          *)
 (***************************************************************************)
+(* Values >= 256 are not bytes: they are opaque TOKENS standing for a text  *)
+(* the model does not look into (Printer: a leaf rendering supplied by     *)
+(* fmt, a payload string).  They behave like one valid ordinary character. *)
+IsTok(c) == c >= 256
+
 DecodeFirst(p) ==
   IF Len(p) = 0 THEN <<FALSE, 0>>
   ELSE LET p0 == p[1] IN
-    IF p0 < 128 THEN <<TRUE, 1>>
+    IF p0 < 128 \/ IsTok(p0) THEN <<TRUE, 1>>
     ELSE IF p0 < 194 \/ p0 > 244 THEN <<FALSE, 1>>
     ELSE LET sz == IF p0 < 224 THEN 2 ELSE IF p0 < 240 THEN 3 ELSE 4
              lo == CASE p0 = 224 -> 160 [] p0 = 240 -> 144 [] OTHER -> 128
@@ -85,7 +90,7 @@ FindStart(p, s, lim) ==
 LastRuneInvalid(p) ==
   LET end == Len(p) IN
   IF end = 0 THEN FALSE
-  ELSE IF p[end] < 128 THEN FALSE
+  ELSE IF p[end] < 128 \/ IsTok(p[end]) THEN FALSE
   ELSE LET lim   == IF end - 4 < 0 THEN 0 ELSE end - 4
            st0   == FindStart(p, end - 2, lim)
            start == IF st0 < 0 THEN 0 ELSE st0
